@@ -17,8 +17,8 @@ MANIFEST = dict(
           "structurally identical (attribute dictionaries, containers, numeric leaves, object identities) before and after the call on EVERY path; these checks are the 'frame:' clauses of those contracts, re-run here. "
           "Ownership clauses, deductive over all coordinates: Segment(Point, Point), Segment(Point, Vector), HalfLine(Point, Point), HalfLine(Point, Vector) and Line(Point, Point) share no mutable object with their arguments "
           "and leave them unchanged; a deep copy of a Line / Plane / Segment / HalfLine is attribute-wise equal and shares nothing. "
-          "Since the only global state (the tolerance pair) is not written by any query (C19's frame), query answers cannot depend on earlier queries."),
-    note=("ConvexPolygon / ConvexPolyhedron construction and the builders, ==, hash, repr, length, area, volume on concrete catalogue objects, and random interleavings of queries, constructions from shared Points, in-place mutations of the shared "
+          "The only documented global state (the tolerance pair) is not written by any query (C19's frame); state hidden outside the objects (memoised answers, class-level caches) is outside what per-call frames express and is covered by the history prelude and the bounded histories below."),
+    note=("ConvexPolygon / ConvexPolyhedron construction and the builders, ==, hash, repr, length, area, volume on concrete catalogue objects, the same question asked again after the caller moved the answer or an operand (every designed pair of every type combination), negation of polygons, class-level attributes, and random interleavings of queries, constructions from shared Points, in-place mutations of the shared "
           "arguments and deep copies with full attribute snapshots are a labelled bounded stand-in (not counted as proved). A4: hash sets deduplicate by ==."),
     design_ref="DESIGN.md section 9 (C20), section 2.2 (frame conditions)",
 )
